@@ -45,6 +45,7 @@ class Folder:
         # effects(name, folded args) -> folded result: lets a rule record calls of output routines (write_char, write_n, ..) and continue with their success value
         self.effects = effects
         self.effects_names = effects_names or (lambda n: True)
+        self._eff_done = {}
         self.prog = prog
         self.max_depth = max_depth
         self._paths = {}
@@ -52,7 +53,10 @@ class Folder:
 
     def paths(self, fpath):
         if fpath not in self._paths:
-            self._paths[fpath] = Sym(self.prog, fpath).paths()
+            try:
+                self._paths[fpath] = Sym(self.prog, fpath).paths()
+            except Exception:
+                self._paths[fpath] = Sym(self.prog, fpath).paths(max_paths=400000)
         return self._paths[fpath]
 
     def ev(self, t, env, bind, depth):
@@ -188,12 +192,28 @@ class Folder:
             return _c(r)
         if k == "call":
             name = t[1]
-            if isinstance(name, str) and self.effects is not None:
-                r = self.effects(name, [self.ev(a, env, bind, depth) for a in t[2]]) if self.effects_names(name) else None
+            if isinstance(name, str) and self.effects is not None and self.effects_names(name):
+                # an output call is performed once, however often its term is re-evaluated while the path conditions of sibling paths are tested
+                ek = (t, tuple(sorted((k, v) for k, v in env.items())) if env else ())
+                try:
+                    if ek in self._eff_done:
+                        return self._eff_done[ek]
+                except TypeError:
+                    ek = None
+                r = self.effects(name, [self.ev(a, env, bind, depth) for a in t[2]])
                 if r is not None:
+                    if ek is not None:
+                        self._eff_done[ek] = r
                     return r
             if isinstance(name, str) and name.startswith("std::convert::num::<impl std::convert::From<") and name.endswith(">::from"):
                 return _ident(self, [self.ev(a, env, bind, depth) for a in t[2]])
+            if isinstance(name, str) and name not in STD_MODELS and name.startswith("<") and (name.endswith(" as std::cmp::PartialEq>::eq") or name.endswith(" as std::cmp::PartialEq>::ne")):
+                # derived equality of plain data (unit-variant enums, small structs): structural comparison of the folded values
+                args = [self.ev(a, env, bind, depth) for a in t[2]]
+                try:
+                    return _eq_model(name.endswith("::ne"))(self, args)
+                except Unknown:
+                    pass
             if isinstance(name, str) and name in STD_MODELS:
                 args = [self.ev(a, env, bind, depth) for a in t[2]]
                 return STD_MODELS[name](self, args)
@@ -610,7 +630,17 @@ def _clone(self, args):
     return a[1] if a[0] == "ref" else a       # Clone of a folded (Copy-like) value is the value
 
 
+def _fn_call(self, args):
+    tup = args[1]
+    if not (tup[0] == "agg" and tup[1] == "tuple"):
+        raise Unknown("Fn::call with a non-tuple argument pack")
+    return _call_closure(self, args[0], list(tup[4]))
+
+
 STD_MODELS = {
+    "std::ops::FnMut::call_mut": _fn_call,
+    "std::ops::FnOnce::call_once": _fn_call,
+    "std::ops::Fn::call": _fn_call,
     "core::slice::<impl [T]>::partition_point": _partition_point,
     "<std::option::Option<T> as std::clone::Clone>::clone": _clone,
     "std::clone::Clone::clone": _clone,
@@ -621,6 +651,8 @@ STD_MODELS = {
     "<std::option::Option<T> as std::cmp::PartialEq>::ne": _eq_model(True),
     "<weekday::Weekday as std::cmp::PartialEq>::eq": _eq_model(False),
     "<weekday::Weekday as std::cmp::PartialEq>::ne": _eq_model(True),
+    "std::cmp::PartialEq::ne": _eq_model(True),
+    "std::cmp::PartialEq::eq": _eq_model(False),
     "std::ops::RangeInclusive::<Idx>::new": lambda self, args: ("agg", "adt", "std::ops::RangeInclusive", "RangeInclusive", (args[0], args[1], _c(False)), 0),
     "core::slice::<impl [T]>::binary_search": _binary_search,
     "std::ops::RangeInclusive::<Idx>::contains": _range_incl_contains,
@@ -696,6 +728,149 @@ for _n in ("std::cmp::Ord::min", "std::cmp::min"):
     STD_MODELS[_n] = _int_minmax(min)
 for _n in ("std::cmp::Ord::max", "std::cmp::max"):
     STD_MODELS[_n] = _int_minmax(max)
+
+def _is_res(v):
+    return v[0] == "agg" and v[1] == "adt" and v[3] in ("Ok", "Err")
+
+
+def _res(variant, payload):
+    return ("agg", "adt", "std::result::Result", variant, (payload,), 0 if variant == "Ok" else 1)
+
+
+def _res_map(self, args):
+    r, f = args
+    if not _is_res(r):
+        raise Unknown("Result::map on a non-constant result")
+    return r if r[3] == "Err" else _res("Ok", _call_closure(self, f, [r[4][0]]))
+
+
+def _res_map_err(self, args):
+    r, f = args
+    if not _is_res(r):
+        raise Unknown("Result::map_err on a non-constant result")
+    return r if r[3] == "Ok" else _res("Err", _call_closure(self, f, [r[4][0]]))
+
+
+def _res_and_then(self, args):
+    r, f = args
+    if not _is_res(r):
+        raise Unknown("Result::and_then on a non-constant result")
+    return r if r[3] == "Err" else _call_closure(self, f, [r[4][0]])
+
+
+def _res_unwrap_or(self, args):
+    r, d = args
+    if not _is_res(r):
+        raise Unknown("Result::unwrap_or on a non-constant result")
+    return r[4][0] if r[3] == "Ok" else d
+
+
+def _res_is(which):
+    def f(self, args):
+        r = args[0][1] if args[0][0] == "ref" else args[0]
+        if not _is_res(r):
+            raise Unknown("is_ok on a non-constant result")
+        return _c(r[3] == which)
+    return f
+
+
+def _opt_filter(self, args):
+    o, f = args
+    if not _is_opt(o):
+        raise Unknown("filter on non-constant option")
+    if o[3] == "None":
+        return o
+    r = _call_closure(self, f, [("ref", o[4][0])])
+    if not _isc(r):
+        raise Unknown("filter predicate not folded")
+    return o if r[1] else _opt(False)
+
+
+def _opt_is_some_and(self, args):
+    o, f = args
+    if not _is_opt(o):
+        raise Unknown("is_some_and on non-constant option")
+    return _c(False) if o[3] == "None" else _call_closure(self, f, [o[4][0]])
+
+
+def _opt_unwrap_or_default(self, args):
+    o = args[0]
+    if not _is_opt(o):
+        raise Unknown("unwrap_or_default on non-constant option")
+    if o[3] == "Some":
+        return o[4][0]
+    raise Unknown("unwrap_or_default of None (default of an unknown type)")
+
+
+def _bool_then_some(self, args):
+    b, v = args
+    if not _isc(b):
+        raise Unknown("then_some on a non-constant bool")
+    return _opt(True, v) if b[1] else _opt(False)
+
+
+def _bool_then(self, args):
+    b, f = args
+    if not _isc(b):
+        raise Unknown("then on a non-constant bool")
+    return _opt(True, _call_closure(self, f, [])) if b[1] else _opt(False)
+
+
+STD_MODELS.update({
+    "std::result::Result::<T, E>::map": _res_map,
+    "std::result::Result::<T, E>::map_err": _res_map_err,
+    "std::result::Result::<T, E>::and_then": _res_and_then,
+    "std::result::Result::<T, E>::unwrap_or": _res_unwrap_or,
+    "std::result::Result::<T, E>::is_ok": _res_is("Ok"),
+    "std::result::Result::<T, E>::is_err": _res_is("Err"),
+    "std::option::Option::<T>::filter": _opt_filter,
+    "std::option::Option::<T>::is_some_and": _opt_is_some_and,
+    "std::option::Option::<T>::unwrap_or_default": _opt_unwrap_or_default,
+    "std::bool::<impl bool>::then_some": _bool_then_some,
+    "std::bool::<impl bool>::then": _bool_then,
+    "core::bool::<impl bool>::then_some": _bool_then_some,
+    "core::bool::<impl bool>::then": _bool_then,
+})
+for _b in (8, 16, 32, 64):
+    for _s in ("u", "i"):
+        _t = "%s%d" % (_s, _b)
+        _p = "core::num::<impl %s>::" % _t
+        _lo, _hi = _INT_RANGES[_t]
+
+        def _mk(op, ty=_t, lo=_lo, hi=_hi):
+            def chk_(self, args):
+                a, b = _ints(args)
+                r = op(a, b)
+                return _opt(True, _c(r)) if r is not None and lo <= r <= hi else _opt(False)
+            def sat_(self, args):
+                a, b = _ints(args)
+                r = op(a, b)
+                return _c(min(max(r, lo), hi))
+            def wrap_(self, args):
+                a, b = _ints(args)
+                return _c(wrap(op(a, b), ty))
+            return chk_, sat_, wrap_
+        for _n, _op in (("add", lambda a, b: a + b), ("sub", lambda a, b: a - b), ("mul", lambda a, b: a * b)):
+            _c1, _s1, _w1 = _mk(_op)
+            STD_MODELS.setdefault(_p + "saturating_" + _n, _s1)
+            STD_MODELS.setdefault(_p + "wrapping_" + _n, _w1)
+        _c2, _, _ = _mk(lambda a, b: None if b == 0 else (abs(a) // abs(b)) * (1 if (a >= 0) == (b >= 0) else -1))
+        STD_MODELS.setdefault(_p + "checked_div", _c2)
+        _c3, _, _ = _mk(lambda a, b: None if b == 0 else abs(a) % abs(b) * (1 if a >= 0 else -1))
+        STD_MODELS.setdefault(_p + "checked_rem", _c3)
+        _c4, _, _ = _mk(lambda a, b: None if b == 0 else a % abs(b))
+        STD_MODELS.setdefault(_p + "checked_rem_euclid", _c4)
+        _c5, _, _ = _mk(lambda a, b: None if b == 0 else (a - a % abs(b)) // b)
+        STD_MODELS.setdefault(_p + "checked_div_euclid", _c5)
+        _c6, _s6, _w6 = _mk(lambda a, b: a ** b if 0 <= b <= 200 else None)
+        STD_MODELS.setdefault(_p + "checked_pow", _c6)
+        STD_MODELS.setdefault(_p + "pow", (lambda ty, lo, hi: lambda self, args: (lambda r: _c(r) if lo <= r <= hi else (_ for _ in ()).throw(Unknown("pow overflows")))(_ints(args)[0] ** _ints(args)[1]))(_t, _lo, _hi))
+        STD_MODELS.setdefault(_p + "checked_neg", (lambda lo, hi: lambda self, args: (lambda r: _opt(True, _c(r)) if lo <= r <= hi else _opt(False))(-_ints(args)[0]))(_lo, _hi))
+        STD_MODELS.setdefault(_p + "checked_abs", (lambda lo, hi: lambda self, args: (lambda r: _opt(True, _c(r)) if lo <= r <= hi else _opt(False))(abs(_ints(args)[0])))(_lo, _hi))
+        STD_MODELS.setdefault(_p + "is_negative", lambda self, args: _c(_ints(args)[0] < 0))
+        STD_MODELS.setdefault(_p + "is_positive", lambda self, args: _c(_ints(args)[0] > 0))
+        STD_MODELS.setdefault(_p + "min", _int_minmax(min))
+        STD_MODELS.setdefault(_p + "max", _int_minmax(max))
 
 for _a in _INT_RANGES:
     for _b in _INT_RANGES:
